@@ -11,28 +11,46 @@
    and the real code is deterministic between two moves.  This module only predicts
    which moves are possible (is something gated on k?), so that TLC enumerates every
    feasible schedule up to D moves; each is printed once and replayed on the real code.
-   What the real code answers is judged by Flight.tla, not here.                       *)
-EXTENDS Integers, Sequences, TLC, Json
+   What the real code answers is judged by Flight.tla, not here.
 
-CONSTANTS Mode, Keys, D, Outcomes, Hooks
+   Objects.  Every move names the object it is made on (field "ob": the driver creates one
+   SingleFlight / LockedCalls / ResourceManager per element of Objs and hands all of them the
+   SAME key strings).  Objects are independent, so the prediction keeps its state per slot
+   <<object, key>>.  Objects are interchangeable: object n+1 is touched only after object n has
+   been.  With more than one object only schedules that touch at least two are printed (the
+   others are the single-object schedules of the other configs).
+   Mode = "all" generates for "sf", "lc" and "rm" in one run; a behaviour is then printed as
+   [mode |-> m, ops |-> hist] instead of the bare list of moves.                       *)
+EXTENDS Integers, Sequences, FiniteSets, TLC, Json
+
+CONSTANTS Mode, Objs, Keys, D, Outcomes, Hooks
 
 VARIABLES
-  run,    \* key |-> an execution is gated on this key
-  wait,   \* key |-> number of callers parked behind it
-  have,   \* key |-> a value is cached / a resource exists ("rm", "take")
-  hooked, \* key |-> "-" | "del" | "done": a leader whose fn returned is parked at that hook
-  hwait,  \* key |-> callers parked behind the hooked leader
+  gm,     \* the component this behaviour is for (= Mode, or one of sf / lc / rm when Mode = "all")
+  run,    \* slot |-> an execution is gated on this slot           (slot = <<object, key>>)
+  wait,   \* slot |-> number of callers parked behind it
+  have,   \* slot |-> a value is cached / a resource exists ("rm", "take")
+  hooked, \* slot |-> "-" | "del" | "done": a leader whose fn returned is parked at that hook
+  hwait,  \* slot |-> callers parked behind the hooked leader
   hist
 
-gvars == <<run, wait, have, hooked, hwait, hist>>
+gvars == <<gm, run, wait, have, hooked, hwait, hist>>
 
-GInit == /\ run = [k \in Keys |-> FALSE] /\ wait = [k \in Keys |-> 0]
-         /\ have = [k \in Keys |-> FALSE] /\ hist = <<>>
-         /\ hooked = [k \in Keys |-> "-"] /\ hwait = [k \in Keys |-> 0]
+Slots == Objs \X Keys
+Modes == IF Mode = "all" THEN {"sf", "lc", "rm"} ELSE {Mode}
 
-Caching == Mode \in {"rm", "take"}
+GInit == /\ gm \in Modes
+         /\ run = [k \in Slots |-> FALSE] /\ wait = [k \in Slots |-> 0]
+         /\ have = [k \in Slots |-> FALSE] /\ hist = <<>>
+         /\ hooked = [k \in Slots |-> "-"] /\ hwait = [k \in Slots |-> 0]
 
-Op(op, k, o, st) == [op |-> op, k |-> k, o |-> o, s |-> st]
+Caching == gm \in {"rm", "take"}
+
+Op(op, k, o, st) == [op |-> op, ob |-> k[1], k |-> k[2], o |-> o, s |-> st]
+
+\* objects are interchangeable: the next untouched object is the smallest one
+Touched == {hist[i].ob : i \in 1..Len(hist)}
+InOrder(k) == \A x \in Objs : x < k[1] => x \in Touched
 
 Call(k) ==
   /\ hist' = Append(hist, Op("call", k, "-", "-"))
@@ -42,55 +60,61 @@ Call(k) ==
           /\ IF Caching /\ have[k] /\ ~run[k] THEN UNCHANGED <<run, wait>>   \* served from the cache at once
              ELSE IF run[k] THEN wait' = [wait EXCEPT ![k] = @ + 1] /\ UNCHANGED run
              ELSE run' = [run EXCEPT ![k] = TRUE] /\ UNCHANGED wait
-  /\ UNCHANGED <<have, hooked>>
+  /\ UNCHANGED <<gm, have, hooked>>
+
+\* a panicking create is outside the ResourceManager clause
+OutOK(o) == o = "panic" => gm \in {"sf", "lc"}
 
 Rel(k, o) ==
-  /\ run[k]
+  /\ run[k] /\ OutOK(o)
   /\ hist' = Append(hist, Op("rel", k, o, "-"))
-  /\ IF Mode = "lc" /\ wait[k] > 0
+  /\ IF gm = "lc" /\ wait[k] > 0
        THEN wait' = [wait EXCEPT ![k] = @ - 1] /\ UNCHANGED run        \* one waiter becomes the runner
        ELSE run' = [run EXCEPT ![k] = FALSE] /\ wait' = [wait EXCEPT ![k] = 0]
   /\ have' = IF Caching /\ o = "ok" THEN [have EXCEPT ![k] = TRUE] ELSE have
-  /\ UNCHANGED <<hooked, hwait>>
+  /\ UNCHANGED <<gm, hooked, hwait>>
 
 \* fn returns and the leader is parked inside makeCall's deferred function (a panicking fn gets there too)
 RelStop(k, o, st) ==
-  /\ Hooks /\ Mode \in {"sf", "lc"} /\ run[k] /\ hooked[k] = "-"
+  /\ Hooks /\ gm \in {"sf", "lc"} /\ run[k] /\ hooked[k] = "-" /\ OutOK(o)
   /\ hist' = Append(hist, Op("rel", k, o, st))
   /\ hooked' = [hooked EXCEPT ![k] = st]
   /\ hwait' = [hwait EXCEPT ![k] = wait[k]]
   /\ run' = [run EXCEPT ![k] = FALSE] /\ wait' = [wait EXCEPT ![k] = 0]
-  /\ UNCHANGED have
+  /\ UNCHANGED <<gm, have>>
 
 Cont(k) ==
   /\ hooked[k] # "-"
   /\ hist' = Append(hist, Op("cont", k, "-", "-"))
   /\ hooked' = [hooked EXCEPT ![k] = "-"] /\ hwait' = [hwait EXCEPT ![k] = 0]
-  /\ IF Mode = "lc" /\ hwait[k] > 0          \* the woken waiters look again
+  /\ IF gm = "lc" /\ hwait[k] > 0          \* the woken waiters look again
        THEN IF run[k] THEN wait' = [wait EXCEPT ![k] = @ + hwait[k]] /\ UNCHANGED run
             ELSE run' = [run EXCEPT ![k] = TRUE] /\ wait' = [wait EXCEPT ![k] = hwait[k] - 1]
        ELSE UNCHANGED <<run, wait>>
-  /\ UNCHANGED have
+  /\ UNCHANGED <<gm, have>>
 
 Del(k) ==
-  /\ Mode = "take" /\ have[k] /\ ~run[k]
+  /\ gm = "take" /\ have[k] /\ ~run[k]
   /\ hist' = Append(hist, Op("del", k, "-", "-"))
   /\ have' = [have EXCEPT ![k] = FALSE]
-  /\ UNCHANGED <<run, wait, hooked, hwait>>
+  /\ UNCHANGED <<gm, run, wait, hooked, hwait>>
 
 Inject(k) ==
-  /\ Mode = "rm" /\ ~run[k] /\ ~have[k]
+  /\ gm = "rm" /\ ~run[k] /\ ~have[k]
   /\ hist' = Append(hist, Op("inject", k, "-", "-"))
   /\ have' = [have EXCEPT ![k] = TRUE]
-  /\ UNCHANGED <<run, wait, hooked, hwait>>
+  /\ UNCHANGED <<gm, run, wait, hooked, hwait>>
 
 GNext == /\ Len(hist) < D
-         /\ \E k \in Keys : \/ Call(k) \/ Del(k) \/ Inject(k) \/ Cont(k)
-                            \/ \E o \in Outcomes : Rel(k, o) \/ \E st \in {"del", "done"} : RelStop(k, o, st)
+         /\ \E k \in Slots : /\ InOrder(k)
+                             /\ \/ Call(k) \/ Del(k) \/ Inject(k) \/ Cont(k)
+                                \/ \E o \in Outcomes : Rel(k, o) \/ \E st \in {"del", "done"} : RelStop(k, o, st)
 GSpec == GInit /\ [][GNext]_gvars
 
 \* one line per complete schedule (every shorter schedule is a prefix of one of them); with hooks only
 \* the schedules that use one (the others are covered by the hook-free configs)
 UsesHook == \E i \in 1..Len(hist) : hist[i].s # "-"
-PrintHist == (Len(hist) = D /\ (Hooks => UsesHook)) => PrintT("TRACE " \o ToJson(hist))
+Several == Cardinality(Objs) > 1 => Cardinality(Touched) > 1
+PrintHist == (Len(hist) = D /\ (Hooks => UsesHook) /\ Several) =>
+               PrintT("TRACE " \o (IF Mode = "all" THEN ToJson([mode |-> gm, ops |-> hist]) ELSE ToJson(hist)))
 =============================================================================
